@@ -178,7 +178,10 @@ fn run_scancode<S: ScancodeSet>(mut s: S, ops: &[Op]) -> Vec<String> {
 }
 
 fn run_ps2(ops: &[Op]) -> Vec<String> {
-    let mut d = Ps2Decoder::new();
+    run_ps2_from(Ps2Decoder::new(), ops)
+}
+
+fn run_ps2_from(mut d: Ps2Decoder, ops: &[Op]) -> Vec<String> {
     ops.iter()
         .map(|op| match op {
             Op::Bit(b) => guard(|| fmt_optbyte(&d.add_bit(*b))),
@@ -266,6 +269,32 @@ pub fn run_part(component: &str, ops: &[Op]) -> Vec<String> {
     match p[0] {
         "set1" => run_scancode(ScancodeSet1::new(), ops),
         "set2" => run_scancode(ScancodeSet2::new(), ops),
+        "set1-default" => run_scancode(ScancodeSet1::default(), ops),
+        "set2-default" => run_scancode(ScancodeSet2::default(), ops),
+        "ps2-default" => run_ps2_from(Ps2Decoder::default(), ops),
+        "kbloop" => {
+            // bytes go to add_byte and every event straight on to process_keyevent (the README loop); the transcript
+            // shows the add_byte results
+            fn go<S: ScancodeSet>(set: S, ops: &[Op]) -> Vec<String> {
+                let mut k = Keyboard::new(set, Echo(0), HandleControl::MapLettersToUnicode);
+                ops.iter()
+                    .map(|op| match op {
+                        Op::Byte(b) => guard(|| {
+                            let r = k.add_byte(*b);
+                            if let Ok(Some(ev)) = &r {
+                                let _ = k.process_keyevent(ev.clone());
+                            }
+                            fmt_ev(&r)
+                        }),
+                        o => format!("(op {} not applicable)", o.text()),
+                    })
+                    .collect()
+            }
+            match p.get(2).copied() {
+                Some("set1") => go(ScancodeSet1::new(), ops),
+                _ => go(ScancodeSet2::new(), ops),
+            }
+        }
         "ps2" => run_ps2(ops),
         "ed" => {
             let (Some(ls), Some(mode)) = (p.get(1).and_then(|s| parse_lspec(s)), p.get(2).and_then(|s| mode_by_name(s)))
